@@ -23,7 +23,7 @@
 (* taken, its arguments, its input class (for signatures) and what the        *)
 (* contract says the call returns.  The only observable of the real API is    *)
 (* the return value of wasNotified(), and observing it changes the state.     *)
-EXTENDS Integers, Sequences, FiniteSets, TLC
+EXTENDS Integers, Sequences, FiniteSets, TLC, FarGap
 
 CONSTANTS Subjects,   \* observable slots, 1..NS
           Watchers    \* observer slots, 1..NW
@@ -136,6 +136,14 @@ Teardown(order) ==
   /\ pending' = [b \in Watchers |-> FALSE]
   /\ last' = [a |-> "Teardown", arg |-> [order |-> order],
               cls |-> IF \E b \in Watchers : att[b] # None THEN "attached" ELSE "detached", exp |-> Void]
+
+\* far stamps (FarGap.tla): the process-wide stamp counter moves far ahead; no observable is touched and nothing
+\* changes for any observer.  Not part of Next (an Advance takes the real code tens of seconds): the far-stamp
+\* histories are the scripts of FarStamps.tla.
+Advance(cls) ==
+  /\ cls \in FarClasses
+  /\ UNCHANGED <<oalive, balive, att, pending>>
+  /\ last' = [a |-> "Advance", arg |-> [cls |-> cls, dist |-> FarDist(cls)], cls |-> cls, exp |-> Void]
 
 Next ==
   \/ \E o \in Subjects : CreateObservable(o) \/ Notify(o) \/ DestroyObservable(o)
